@@ -78,7 +78,7 @@ type vSource struct {
 }
 
 func (s *vSource) Source(handler.EventHandler, ...predicate.Predicate) source.Source { return nil }
-func (s *vSource) blockNewRegistrations()                                          {}
+func (s *vSource) blockNewRegistrations()                                            {}
 func (s *vSource) handleNewInformer(inf cache.SharedIndexInformer) error {
 	if s.failNext {
 		s.failNext = false
